@@ -65,9 +65,17 @@ class BaseValidator(object):
 
     def __exit__(self, exc_type, exc_val, exc_tb):
         """
-        Simply call :py:meth:`~.close()`.
+        Call :py:meth:`~.close()`. In case the ``with`` block was left because
+        of an error, keep this error instead of replacing it by an error of
+        the final checks, which merely reflects that the data are incomplete.
         """
-        self.close()
+        if exc_type is None:
+            self.close()
+        else:
+            try:
+                self.close()
+            except errors.CheckError:
+                pass
 
     @property
     def cid(self):
